@@ -6,19 +6,25 @@ from BPTK_Py import Model, bptk
 from BPTK_Py.server import BptkServer
 import BPTK_Py.server.bptkServer as srvmod
 
-DESTROYED = []
+DESTROYED = []      # serial numbers of destroyed bptk objects (NOT id(): python reuses the id of a freed object)
+_SERIAL = [0]
+
+SM = ["sm"]          # name of the scenario manager the factory registers (a harness may switch it, e.g. to "2024")
+RUNSPEC = [1.0, 10.0, 1.0]
 
 def make_bptk():
-    m = Model(starttime=1.0, stoptime=10.0, dt=1.0, name="m")
+    m = Model(starttime=RUNSPEC[0], stoptime=RUNSPEC[1], dt=RUNSPEC[2], name="m")
     s = m.stock("s"); f = m.flow("f"); c = m.constant("c")
     s.initial_value = 0.0; c.equation = 1.0; f.equation = c; s.equation = f
     b = bptk()
     b.register_model(m)
-    b.register_scenario_manager({"sm": {"model": m}})
-    b.register_scenarios(scenario_manager="sm", scenarios={"base": {"constants": {"c": 1.0}}})
+    b.register_scenario_manager({SM[0]: {"model": m}})
+    b.register_scenarios(scenario_manager=SM[0], scenarios={"base": {"constants": {"c": 1.0}}})
     orig = b.destroy
+    _SERIAL[0] += 1
+    b._verif_serial = _SERIAL[0]
     def destroy(orig=orig, b=b):
-        DESTROYED.append(id(b)); return orig()
+        DESTROYED.append(b._verif_serial); return orig()
     b.destroy = destroy
     return b
 
@@ -46,7 +52,7 @@ def start(client, headers=None, timeout=None):
     return json.loads(r.data)["instance_uuid"]
 
 def begin(client, u, headers=None):
-    return client.post("/%s/begin-session" % u, json=BEGIN, headers=headers or {})
+    return client.post("/%s/begin-session" % u, json=dict(BEGIN, scenario_managers=[SM[0]]), headers=headers or {})
 
 def digest(app):
     """server-side state that a refused request must not change"""
@@ -54,7 +60,7 @@ def digest(app):
     for k, rec in app._instance_manager._instances.items():
         ss = rec["instance"].session_state
         d[k] = None if ss is None else (ss.get("step"), ss.get("lock"), len(ss.get("results_log", {}) or {}), repr(ss.get("settings_log"))[:200])
-    sc = app._bptk.get_scenario("sm", "base")
+    sc = app._bptk.get_scenario(SM[0], "base")
     return (d, dict(sc.constants), len(DESTROYED))
 
 TOKEN = "S3cretTok"
